@@ -382,6 +382,8 @@ func init() {
 		Floors:      map[string]int64{"C04/blocked:*": 150, "C04/exempt-refund:*": 10, "C04/unfreeze-restores": 5},
 		Run: func(c *harness.Ctx) {
 			c04Directed(c)
+			c04SystemAddressForms(c)
+			hugeNonceOps(c, []string{"C04"})
 			runWalks(c, c.Scale(400, 1500), c.Scale(70, 120), 10, true, "C04")
 		},
 	})
@@ -799,6 +801,45 @@ func c03Directed(c *harness.Ctx) {
 			}
 		}
 		c.R.Eval(u.N.Seq())
+	}
+}
+
+// c04SystemAddressForms: pause / un-pause addressed to every form of the system account address
+// the guard admits (30 bytes ff followed by any two bytes): the token is paused / released on that
+// shard whatever form was used.
+func c04SystemAddressForms(c *harness.Ctx) {
+	tails := [][]byte{{0xff, 0xff}, {0, 0}, {0, 1}, {0xff, 0xfe}, {0x12, 0x34}}
+	for i, S := range []uint32{1, 2} {
+		if !mine(c, i+5) {
+			continue
+		}
+		for ti, tail := range tails {
+			s := NewScn(c.Rand("c04sys").Fork(uint64(ti)), c.R, ScnOpts{Shards: S, Enabled: []string{"C04"}})
+			u := s.U
+			form := append(bytes.Repeat([]byte{0xff}, 30), tail...)
+			other := append(bytes.Repeat([]byte{0xff}, 30), tails[(ti+1)%len(tails)]...)
+			for _, tok := range [][]byte{s.F1, s.SFT} {
+				l := u.N.ExecAt(0, node.Call{Func: FPause, Caller: gen.SysSC, Recipient: form, Args: [][]byte{tok}})
+				if l == nil || !l.OK {
+					c.R.Cover("C04/pause-form-refused")
+					continue
+				}
+				c.R.Cover("C04/pause-form-accepted")
+				// everything that moves the token on this shard is now refused (judged by the monitor)
+				u.N.Exec(s.Xfer("T", s.A, s.Same, "f"))
+				u.N.Exec(s.Xfer("N", s.A, s.Same, "s"))
+				u.N.Exec(s.Xfer("M", s.A, s.Same, "fs"))
+				u.N.Exec(gen.SelfCall(FLocalMint, s.A, gen.BigGas, s.F1, gen.Big(5)))
+				u.N.Exec(gen.SelfCall(FNFTAddQty, s.A, gen.BigGas, s.SFT, gen.U64(1), gen.Big(5)))
+				drain(u.N)
+				if l2 := u.N.ExecAt(0, node.Call{Func: FUnPause, Caller: gen.SysSC, Recipient: other, Args: [][]byte{tok}}); l2 != nil && l2.OK {
+					gen.Must(u.N.Exec(s.Xfer("M", s.A, s.Same, "fs")), "transfer after un-pause through another form of the address")
+					c.R.Cover("C04/unpause-form-accepted")
+				}
+				drain(u.N)
+			}
+			c.R.Eval(u.N.Seq())
+		}
 	}
 }
 
@@ -1316,12 +1357,21 @@ func c08Routes(c *harness.Ctx) {
 		}
 		l := u.N.Exec(call)
 		rejected := !l.OK
+		refusing := l
 		for _, dl := range drain(u.N) {
 			if dl.Msg != nil && !dl.Msg.IsRefund {
 				rejected = !dl.OK
+				refusing = dl
 			}
 		}
 		if rejected {
+			// the refusal leaves the holding it protects untouched, also in what the call had
+			// written when it returned (before the node's roll-back)
+			for _, ch := range refusing.RawDiff {
+				if ch.Addr == string(dst) && ch.Key == node.StorageKey(s.SFT, 1) {
+					s.M.viol("C08", "wrong-hash-refused-after-overwrite:"+call.Func, "the transfer into an account holding a different hash was refused, but the holding had already been overwritten when the call returned", refusing)
+				}
+			}
 			c.R.Cover("C08/wrong-hash-rejected")
 		} else {
 			s.M.viol("C08", "wrong-hash-accepted:"+call.Func, "a transfer into an account holding a different hash under the same token and nonce was accepted", l)
